@@ -123,10 +123,11 @@ RecRes == [type |-> E.type, sp |-> E.sp, fp |-> E.fp, ex |-> E.ex, succ |-> ToSe
 ResultConforms(r) ==
     /\ pc = "sent" /\ r.type = res.type /\ r.succ = res.succ /\ r.failed = res.failed
     /\ Near(r.sp, res.sp) /\ Near(r.fp, res.fp) /\ Near(r.ex, res.ex)
+\* cause predicates over the spec's own intermediate values (alloc, rem, target) for this very input;
+\* the lost-power label additionally needs the code's result to equal the transcription's
 FiredDevs(r) ==
-    IF ~ResultConforms(r) THEN <<>>
-    ELSE (IF Dev_PVSucceededPowerFromStaleTarget THEN <<"Dev_PVSucceededPowerFromStaleTarget">> ELSE <<>>)
-         \o (IF Dev_DistributionLostPower THEN <<"Dev_DistributionLostPower">> ELSE <<>>)
+    (IF pc = "sent" /\ Dev_PVSucceededPowerFromStaleTarget(r) THEN <<"Dev_PVSucceededPowerFromStaleTarget">> ELSE <<>>)
+    \o (IF ResultConforms(r) /\ Dev_DistributionLostPower THEN <<"Dev_DistributionLostPower">> ELSE <<>>)
 
 ConsumeResult ==
     /\ At("result")
